@@ -349,7 +349,7 @@ func Send(method, rawurl string, options ...SendOption) (*http.Response, error) 
 		}
 		if err != nil ||
 			(isRetryable(resp.StatusCode) && !opts.acceptedCodes[resp.StatusCode]) ||
-			(opts.retry.extraCodes[resp.StatusCode]) {
+			(opts.retry.extraCodes[resp.StatusCode] && !opts.acceptedCodes[resp.StatusCode]) {
 			d := opts.retry.backoff.NextBackOff()
 			if d == backoff.Stop {
 				break // Backoff timed out.
